@@ -32,8 +32,29 @@ ACTIONS = [
     ("move d/e out of the root", [["rename", H("root/d/e"), H("outside/stolen_e")]], [["rename", H("outside/stolen_e"), H("root/d/e")]]),
     ("exchange d/e with a link to outside", [["exchange", H("root/d/e"), H("root/evil_dir")]], [["exchange", H("root/d/e"), H("root/evil_dir")]]),
     ("exchange d with a link to outside", [["exchange", H("root/d"), H("root/evil_dir")]], [["exchange", H("root/d"), H("root/evil_dir")]]),
+    ("move a/b up to the top of the root", [["rename", H("root/a/b"), H("root/b_top")]], [["rename", H("root/b_top"), H("root/a/b")]]),
     ("unlink a/b/f", [["unlink", H("root/a/b/f")]], []),
 ]
+
+
+def flag_variants(base_jobs, link_names=(b"l", b"up", b"abs", b"s", b"evil_dir", b"evil_file", b"evil_up")):
+    """Every base job once more on a Root with ResolverFlags::NO_SYMLINKS (rflags 4) when its path names no link:
+    code paths that depend on the resolver flags get the same schedules."""
+    out = list(base_jobs)
+    nid = max(j["id"] for j in base_jobs) + 1
+    for j in base_jobs:
+        op = j["op"]
+        paths = [unhex(op[k]) for k in ("path", "src", "dst") if k in op]
+        if op.get("type") == "hardlink" and "target" in op:
+            paths.append(unhex(op["target"]))
+        if any(c in link_names for p_ in paths for c in p_.split(b"/")):
+            continue
+        j2 = dict(j)
+        j2["id"] = nid
+        j2["rflags"] = 4
+        nid += 1
+        out.append(j2)
+    return out
 
 
 def boundaries(trace):
@@ -52,8 +73,14 @@ def make_jobs(base_jobs, baselines, rng, thorough, max_per_job=None, pairs=False
         ks = boundaries(b["trace"])
         combos = [(k, ai) for k in ks for ai in range(len(ACTIONS))]
         if max_per_job and len(combos) > max_per_job:
-            rng.shuffle(combos)
-            combos = combos[:max_per_job]
+            # the windows right before a '..' step are always taken: that is where a moved directory takes the walk upwards
+            def dotdot(k):
+                e = b["trace"][k]
+                return e["c"] in ("openat", "openat2") and unhex(e.get("path", "")) == b".."
+            prio = [c for c in combos if dotdot(c[0])]
+            rest = [c for c in combos if not dotdot(c[0])]
+            rng.shuffle(rest)
+            combos = prio + rest[:max(0, max_per_job - len(prio))]
         for k, ai in combos:
             jid += 1
             j = dict(bj)
@@ -67,7 +94,7 @@ def make_jobs(base_jobs, baselines, rng, thorough, max_per_job=None, pairs=False
                 if len(ks) < 2:
                     break
                 k1, k2 = sorted(rng.sample(ks, 2))
-                ai = rng.randrange(len(ACTIONS) - 1)
+                ai = rng.randrange(len(ACTIONS))
                 if not ACTIONS[ai][2]:
                     continue
                 jid += 1
